@@ -74,6 +74,8 @@ def eq(x, y):
         return type(x) == type(y) and x.shape == y.shape and (0 in x.shape or bool(np.all(veq(x,y))))
     elif isinstance(x, (pd.DataFrame, pd.Series)):
         return type(x)==type(y) and x.shape == y.shape and _eq_attrs(x,y, attrs = ['index', 'columns']) and (0 in x.shape or bool(np.all(veq(x,y))))
+    elif isinstance(x, pd.Index):
+        return isinstance(y, pd.Index) and eq(x.values, y.values) # label by label: nan / NaT labels equal themselves, as cells do
     elif isinstance(x, dict):
         if type(x) == type(y) and len(x)==len(y):
             if len(x) == 0:
